@@ -4,7 +4,12 @@ From Coq Require Import Bool List NArith ZArith Lia.
 From M Require ErrQueue.
 From M Require FifoProof.
 From M Require Tie.
+From M Require SystErr.
+From M Require ErrSpec.
 From M Require FifoProof.
+From M Require FmtModel.
+From M Require HeapProof.
+From M Require QStatic.
 Import ListNotations.
 
 Module T_push_refines. Import ErrQueue. Local Open Scope bool_scope. Local Open Scope Z_scope.
@@ -63,4 +68,30 @@ Theorem C10_tie_config :
 Proof. exact (@Tie.tie_config). Qed.
 End T_tie_config.
 Definition C10_tie_config := @T_tie_config.C10_tie_config.
+
+Module T_systerr_refines. Import SystErr. Local Open Scope bool_scope. Local Open Scope Z_scope.
+Import FifoProof HeapProof QStatic FmtModel ErrSpec. Local Open Scope Z_scope.
+Theorem C10_systerr_refines :
+  forall s,
+  ErrQueue.QInv s ->
+  let '(s', out) := Glue.eq_systerr s in
+  let '(l', (code, text)) := ErrQueue.spec_pop (ErrQueue.absq s) in
+  ErrQueue.QInv s' /\ ErrQueue.absq s' = l' /\ fsize ErrQueue.entry (ErrQueue.q s') = fsize ErrQueue.entry (ErrQueue.q s) /\
+  out = result_error code (Glue.descz code) text Generated.gen_desc_max.
+Proof. exact (@SystErr.systerr_refines). Qed.
+End T_systerr_refines.
+Definition C10_systerr_refines := @T_systerr_refines.C10_systerr_refines.
+
+Module T_systerr_response. Import SystErr. Local Open Scope bool_scope. Local Open Scope Z_scope.
+Import FifoProof HeapProof QStatic FmtModel ErrSpec. Local Open Scope Z_scope.
+Theorem C10_systerr_response :
+  forall s,
+  ErrQueue.QInv s ->
+  let '(_, (code, text)) := ErrQueue.spec_pop (ErrQueue.absq s) in
+  nonul (Glue.descz code) -> (forall t, text = Some t -> nonul t) -> Generated.gen_desc_max = 255 ->
+  snd (Glue.eq_systerr s) =
+  fst (fst (int2str 32 code 33 10 true)) ++ [44; 34] ++ esc (take_fit 255 (whole (Glue.descz code) text)) ++ [34].
+Proof. exact (@SystErr.systerr_response). Qed.
+End T_systerr_response.
+Definition C10_systerr_response := @T_systerr_response.C10_systerr_response.
 
